@@ -7,10 +7,14 @@ pub mod c01;
 pub mod c02;
 pub mod c03;
 pub mod c04;
+pub mod c07;
+pub mod c08;
 pub mod c10;
 pub mod c11;
+pub mod c12;
 pub mod c13;
 pub mod c15;
+pub mod c16;
 
 use crate::run::Monitor;
 
@@ -20,9 +24,13 @@ pub fn all() -> Vec<&'static Monitor> {
         &c02::MONITOR,
         &c03::MONITOR,
         &c04::MONITOR,
+        &c07::MONITOR,
+        &c08::MONITOR,
         &c10::MONITOR,
         &c11::MONITOR,
+        &c12::MONITOR,
         &c13::MONITOR,
         &c15::MONITOR,
+        &c16::MONITOR,
     ]
 }
